@@ -50,7 +50,7 @@ TraceSrcFault ==
 AllFmts == {"deb", "rpm", "apk", "archlinux", "ipk"}
 InvalidFor(class) ==
   CASE class = "none" -> {} [] class = "deb_compression" -> {"deb"} [] class = "rpm_compression" -> {"rpm"}
-    [] class = "content_type" -> AllFmts [] class = "deb_signature_type" -> {"deb"} [] class \in {"rpm_epoch", "rpm_epoch_range", "rpm_epoch_negative"} -> {"rpm"}   \* an rpm epoch is an unsigned 32-bit number
+    [] class \in {"content_type", "content_type_config_replace", "content_type_configuration", "content_type_config_both_flags"} -> AllFmts [] class = "deb_signature_type" -> {"deb"} [] class \in {"rpm_epoch", "rpm_epoch_range", "rpm_epoch_negative"} -> {"rpm"}   \* an rpm epoch is an unsigned 32-bit number
     [] class \in {"rpm_relation_depends", "rpm_relation_provides", "rpm_relation_recommends", "rpm_relation_replaces",
                  "rpm_relation_suggests", "rpm_relation_conflicts"} -> {"rpm"}    \* rpm knows <, <=, =, >=, > only
     [] class = "platform" -> {"apk", "archlinux"} [] class \in {"arch_name", "arch_name_hyphen", "arch_name_dot", "arch_name_dashes"} -> {"archlinux"}   \* may not start with hyphen or dot [] class = "missing_name" -> AllFmts
